@@ -133,10 +133,12 @@ def deleteLoops (d : Db) (p : LoopRow → Bool) : Db :=
     unreachable from any data block. -/
 def deleteContainer (d : Db) (id : Nat) : Db × Nat :=
   let n := (d.containers.filter (fun c => c.id == id)).length
-  let d1 := { d with containers := d.containers.filter (fun c => !(c.id == id)),
-                     blocks := d.blocks.filter (fun b => !(b.cid == id)),
-                     frames := d.frames.filter (fun f => !(f.cid == id) && !(f.parent == id)) }
-  (d1.deleteLoops (fun l => l.cid == id), n)
+  if n == 0 then (d, 0)            -- no parent row is deleted: nothing cascades
+  else
+    let d1 := { d with containers := d.containers.filter (fun c => !(c.id == id)),
+                       blocks := d.blocks.filter (fun b => !(b.cid == id)),
+                       frames := d.frames.filter (fun f => !(f.cid == id) && !(f.parent == id)) }
+    (d1.deleteLoops (fun l => l.cid == id), n)
 
 /-- CREATE_LOOP_SQL: `insert into unnumbered_loop` ⇒ trigger tr1_unnumbered_loop ⇒ `insert into loop(container_id,
     loop_num, category) values (cid, (select next_loop_num from container where id = cid), cat)` with the BEFORE INSERT
@@ -514,6 +516,12 @@ def addScalar (s : Store) (h : CH) (key orig : Str) (v : V) : R Unit :=
     | (s2, .error c) => (s2, .error c)
     | (s2, .ok numPackets) => if numPackets == 0 then addPacket s2 l [(key, v)] else (s2, .ok ())
 
+/-- cif_container_set_value between BEGIN and COMMIT/ROLLBACK -/
+def setValueInner (s1 : Store) (h : CH) (key orig : Str) (v : V) : R Unit :=
+  match getItemLoopInternal s1.db h.id key with
+  | .error c => if c == CIF_NOSUCH_ITEM then addScalar s1 h key orig v else (s1, .error c)
+  | .ok _ => ({ s1 with db := (s1.db.setAllValues h.id key v).1 }, .ok ())
+
 /-- cif_container_set_value -/
 def setValue (s : Store) (h : CH) (name : Option Name) (val : Option V) : R Unit :=
   match name with
@@ -523,13 +531,9 @@ def setValue (s : Store) (h : CH) (name : Option Name) (val : Option V) : R Unit
     else match s.begin with
       | none => (s, .error CIF_ERROR)
       | some s1 =>
-        let v := val.getD .unk
-        let (s2, r) : R Unit := match getItemLoopInternal s1.db h.id n.key with
-          | .error c => if c == CIF_NOSUCH_ITEM then addScalar s1 h n.key n.orig v else (s1, .error c)
-          | .ok _ => ({ s1 with db := (s1.db.setAllValues h.id n.key v).1 }, .ok ())
-        match r with
-        | .ok () => (s2.commit.getD s2, .ok ())
-        | .error c => (s2.rollback.getD s2, .error c)
+        match setValueInner s1 h n.key n.orig (val.getD .unk) with
+        | (s2, .ok _) => (s2.commit.getD s2, .ok ())
+        | (s2, .error c) => (s2.rollback.getD s2, .error c)
 
 /-- cif_container_remove_item -/
 def removeItem (s : Store) (h : CH) (name : Option Name) : R Unit :=
@@ -561,11 +565,12 @@ def getCategory (l : LH) : Option Str := l.category
 
 /-- cif_loop_set_category; delivers the handle as the call leaves it.
     NOTE: `category == NULL` skips the reserved-category test — the scalar loop's category can be taken away that way. -/
+def catReserved (l : LH) : Option Str → Bool
+  | none => false
+  | some c => c.isEmpty || l.category == some []
+
 def setCategory (s : Store) (l : LH) (cat : Option Str) : Store × LH × Except Code Unit :=
-  let reserved := match cat with
-    | none => false
-    | some c => c.isEmpty || l.category == some []
-  if reserved then (s, l, .error CIF_RESERVED_LOOP)
+  if catReserved l cat then (s, l, .error CIF_RESERVED_LOOP)
   else match s.db.setCategory l.cid l.loopNum cat with
     | .error _ => (s, l, .error CIF_ERROR)
     | .ok (d1, n) =>
